@@ -27,8 +27,19 @@
   (`LexInv.new_withTabWidth` …: it is again a `new`).
 
   No scanner contract (`ScanOK`) is needed here; unbounded in everything.
+
+  Interpreter half (`C03_run_spans`, = `C13_spans_from_lexer`): the same for
+  everything the combinators build from a lexer.  For `P` closed under the
+  scanner at the lexer's metrics: if the stored positions of the incoming lexer
+  satisfy `P` and so do all spans / positions of the errors already in the sink
+  log, then for every grammar, fuel, context and world, `run` hands back a lexer
+  whose stored positions satisfy `P`, a value whose captured spans have both
+  endpoints in `P`, an error whose every span / position field is in `P`, and a
+  sink log all of whose errors are such.  With `P` = canonical: every position
+  the parser layer ever reports is canonical.
 -/
 import TephraProofs.LexInv
+import TephraProofs.RunSpans
 
 namespace Tephra.Props
 open Tephra
@@ -64,6 +75,15 @@ theorem C03_lexer_step (E : LexEnv σ τ) (P : Pos → Prop) {lx lx' : Lexer σ 
 
 theorem C03_lexer_new (P : Pos → Prop) (h0 : P Pos.zero) (s0 : σ) (m : Metrics) (len : Nat) :
     PosOK P (Lexer.new s0 m len : Lexer σ τ) := LexInv.new_pos h0 s0 m len
+
+/-- Interpreter half: every position in every result, error and logged error of
+`run` satisfies `P`.  (Non-vacuity: see `TephraProps/C13.lean`, `one_fails`.) -/
+theorem C03_run_spans (R : RunEnv) (P : Pos → Prop) (n : Nat) (g : G) (lx : Lx) (ctx : Ctx) (W : World)
+    (hc : Closed R.E P lx.metrics) (hp : PosOK P lx) (hW : ∀ e ∈ W.log, ErrP P e.body) :
+    (∀ v lx', (run R n g lx ctx W).1 = .ok v lx' → PosOK P lx' ∧ ValP P v) ∧
+    (∀ e, (run R n g lx ctx W).1 = .err e → ErrP P e.body) ∧
+    (∀ e ∈ (run R n g lx ctx W).2.log, ErrP P e.body) :=
+  RunSpans.run_spans R P n g lx ctx W hc hp hW
 
 /-! Non-vacuity, and the excluded clause as a theorem about the model of the
 real code: a one-tab text.  The scanner reports the end of the tab at column
